@@ -77,6 +77,9 @@ HDR_BAD = [
     ["From a@example.com", "To: b@example.com"],        # no colon
     [" leading blank", "From: a@example.com", "To: b@example.com"],
     ["From:", "To: b@example.com"],                     # empty From
+    ["QUIT"],                                           # unparsable first line that is an LMTP verb
+    ["From: a@example.com", "Subject about the QUIT command", "To: b@example.com"],  # colon-less line naming a verb
+    ["RSET now", "To: b@example.com"],
 ]
 BODY_LINES = ["hello", ".", "..", "...", ".x", ". ", "", "RSET", "QUIT", "DATA", "NOOP", "rset",
               "MAIL FROM<z@example.com>", "LHLO again", "- dash", "tail\r", "\ttabbed", "x" * 30,
@@ -102,6 +105,77 @@ def gen_dot_body(rng):
     if rng.random() < 0.6:
         lines.append(rng.choice([b"after", b".", b"last line"]) + eol(rng, 0.1))
     return lines
+
+
+VERBS = ["QUIT", "RSET", "DATA", "MAIL FROM:", "RCPT TO:", "LHLO", "NOOP"]
+REFUSAL_KINDS = ["first_line", "malformed_line", "blank_led", "headerless", "no_from", "no_rcpt", "oversize"]
+REFUSAL_CONFIGS = [(400, 1), (400, 3), (400, 5)]
+GOOD_MSG = [b"From: a@example.com\r\n", b"To: b@example.com\r\n", b"Subject: second\r\n", b"\r\n", b"second message\r\n", b".\r\n"]
+
+
+def verb_text(rng, verb, up):
+    v = verb if up else verb.lower()
+    if verb == "MAIL FROM:":
+        v += "<mallory@example.net>"
+    elif verb == "RCPT TO:":
+        v += "<carol@example.com>"
+    elif verb == "LHLO":
+        v += " evil.example"
+    return v
+
+
+def gen_refused_message(rng, ms, verb, up, kind):
+    """lines of a message that the server must refuse after the end of data, with the LMTP
+    verb in the line the refusal is about (or the first line, or the body)"""
+    v = verb_text(rng, verb, up)
+    bare = verb.rstrip(":") if up else verb.rstrip(":").lower()   # a form without colon
+    body = [v, "text after", rng.choice(["QUIT", "quit", "RSET", v])]
+    if kind == "first_line":        # header-less, unparsable: the first line is the verb
+        lines = [bare if ":" in v else v] + body
+    elif kind == "malformed_line":  # a header-section line without a colon that mentions the verb
+        lines = ["From: a@example.com", "Subject about the %s command" % bare, "To: b@example.com", ""] + body
+    elif kind == "blank_led":       # first line starts with a blank
+        lines = [" " + bare, "From: a@example.com", "To: b@example.com", ""] + body
+    elif kind == "headerless":      # starts with the empty line
+        lines = [""] + body
+    elif kind == "no_from":
+        lines = ["To: b@example.com", "Subject: %s" % v, ""] + body
+    elif kind == "no_rcpt":
+        lines = ["From: a@example.com", "Subject: %s" % v, ""] + body
+    else:                           # oversize
+        lines = ["From: a@example.com", "To: b@example.com", ""] + body
+        while sum(len(l) + 2 for l in lines) <= ms:
+            lines.append(rng.choice([v, "QUIT", "filler " * 6, "."]))
+        lines.append(v)
+    return [l.encode("latin-1") + b"\r\n" for l in lines]
+
+
+def gen_refusal_program(rng, idx, ms, mr, verb, up, kind):
+    out = [b"LHLO refuse.example\r\n"]
+    txs = []
+    n = rng.randint(1, mr)
+    rc = ["rf%dt0r%d@example.com" % (idx, k) for k in range(n)]
+    bad = gen_refused_message(rng, ms, verb, up, kind)
+    out.append(b"MAIL FROM:<a@example.com>\r\n")
+    out += [("RCPT TO:<%s>\r\n" % r).encode() for r in rc]
+    out.append(b"DATA\r\n")
+    out += stuff(bad)
+    out.append(b".\r\n")
+    out.append(b"NOOP\r\n")
+    txs.append((rc, bad))
+    # the session must go on: a second, complete transaction
+    n2 = rng.randint(1, mr)
+    rc2 = ["rf%dt1r%d@example.com" % (idx, k) for k in range(n2)]
+    good = list(GOOD_MSG)
+    out.append(b"MAIL FROM:<b@example.com>\r\n")
+    out += [("RCPT TO:<%s>\r\n" % r).encode() for r in rc2]
+    out.append(b"DATA\r\n")
+    out += stuff(good)
+    out.append(b".\r\n")
+    out.append(b"NOOP\r\n")
+    txs.append((rc2, good))
+    out.append(b"QUIT\r\n")
+    return b"".join(out), txs
 
 
 def gen_dot_program(rng, idx, mr):
@@ -466,11 +540,38 @@ def run_dot_probes(chk, n, stats):
         c["txs"] = txs
         c["observe"] = [r for rc, _ in txs for r in rc]
         cases.append(c)
+    return run_probe_sessions(chk, cases, stats, "dot_probe",
+                              "a body line that is exactly dots (sent dot-stuffed) or an LMTP look-alike inside the message is not treated as data")
+
+
+def run_refusal_probes(chk, extra, stats):
+    """sessions whose FIRST message is refused after DATA (header-less, malformed header
+    line, no From, no To/Cc/Bcc, over size) and carries an LMTP verb in the offending
+    line / first line / body, always followed by pipelined commands and a second, complete
+    transaction on the same connection; judged by stream_ok (one reply per recipient, then
+    every later command answered, state reset) and delivered_ok for the second message"""
+    rng = chk.rng
+    cases = []
+    plan = [(v, up, k) for v in VERBS for up in (True, False) for k in ("first_line", "malformed_line")]
+    plan += [(rng.choice(VERBS), True, k) for k in REFUSAL_KINDS]
+    plan += [(rng.choice(VERBS), rng.random() < 0.7, rng.choice(REFUSAL_KINDS)) for _ in range(extra)]
+    for i, (verb, up, kind) in enumerate(plan):
+        ms, mr = rng.choice(REFUSAL_CONFIGS)
+        inp, txs = gen_refusal_program(rng, i, ms, mr, verb, up, kind)
+        c = mk_case(inp, ms, mr, rng.choice([1, 0, 7]), {"flavour": "refusal", "kind": kind, "verb": verb})
+        c["txs"] = txs
+        c["observe"] = [r for rc, _ in txs for r in rc]
+        cases.append(c)
+    return run_probe_sessions(chk, cases, stats, "refusal_probe",
+                              "a message refused after DATA does not leave the session in step and ready for the next transaction")
+
+
+def run_probe_sessions(chk, cases, stats, label, headline):
     run_sessions(cases)
     good = []
     for c in cases:
         if "crash" in c:
-            chk.broken_obligation("driver crashed while running the dot-probe sessions: %s" % c["crash"][:400], session_payload(c))
+            chk.broken_obligation("driver crashed while running the %s sessions: %s" % (label, c["crash"][:400]), session_payload(c))
             return []
         if c.get("panic") or not c.get("returned"):
             session_violation(chk, "lmtp.Session.Handle panicked or did not return on %r" % c["input"][:200], c)
@@ -482,23 +583,22 @@ def run_dot_probes(chk, n, stats):
         return good
     for c, code in zip(good, codes):
         m, sp, oct_ok = bool(code & 1), bool(code & 2), bool(code & 4)
-        stats["dot_probes"] = stats.get("dot_probes", 0) + 1
+        stats[label + "s"] = stats.get(label + "s", 0) + 1
         if sp and oct_ok:
             if not m:
                 stats["disagreements"] += 1
-                chk.broken_obligation("correspondence session no longer checks on a dot-probe session (spec holds): replies %s to %r" % (
-                    [r[0] for r in c["reps"]], c["input"][:200]), session_payload(c))
+                chk.broken_obligation("correspondence session no longer checks on a %s session (spec holds): replies %s to %r" % (
+                    label, [r[0] for r in c["reps"]], c["input"][:200]), session_payload(c))
             continue
-        stats["dot_probe_violations"] = stats.get("dot_probe_violations", 0) + 1
-        if stats["dot_probe_violations"] > 3:
+        stats[label + "_violations"] = stats.get(label + "_violations", 0) + 1
+        if stats[label + "_violations"] > 3:
             continue
         payload = session_payload(c)
         payload["stored"] = c.get("stored")
         payload["submitted_bodies"] = [[rc, C.latin(b"".join(body))] for rc, body in c["txs"]]
         if not sp:
-            what = ("a body line that is exactly dots (sent dot-stuffed) or an LMTP look-alike inside the message is not treated as data: "
-                    "replies %s to the stream %r are out of step (not one reply per recipient after the real terminator / body lines answered as commands)" % (
-                        [r[0] for r in c["reps"]], c["input"][:300]))
+            what = (headline + ": replies %s to the stream %r are out of step (not one reply per recipient after the real terminator, "
+                    "message lines acted on as commands, or later commands unanswered)" % ([r[0] for r in c["reps"]], c["input"][:300]))
         else:
             what = ("message data not passed through exactly: the octets stored for the recipients differ from the submitted body "
                     "(stream %r, stored %r)" % (c["input"][:300], c.get("stored")))
@@ -635,6 +735,7 @@ def run(chk):
     # ---------------- dot probes: run first so that their session replays head the report;
     # they are also the property-level search consulted after a reader mismatch
     dots = run_dot_probes(chk, 24 if quick else 400, stats)
+    refs = run_refusal_probes(chk, 7 if quick else 200, stats)
 
     # ---------------- direct calls: reader, parse, verdict
     rcases = gen_reader_cases(rng, n_reader)
@@ -644,6 +745,11 @@ def run(chk):
         body = gen_body(rng, rng.choice(["ok", "bad", "any"]))
         for k in range(len(body) + 1):
             msgs.append(b"".join(body[k:]))
+    for v in VERBS:
+        for up in (True, False):
+            for k in REFUSAL_KINDS:
+                msgs.append(b"".join(gen_refused_message(rng, 400, v, up, k)))
+    msgs.append(b"".join(GOOD_MSG))
     msgs = sorted(set(msgs))
     ops = [
         {"op": "batch", "fn": "ReadDataCommand", "cases": [{"a": [C.latin(s)], "n": [mx]} for (_, _, _, mx, s) in rcases]},
@@ -772,8 +878,8 @@ def run(chk):
 
     # ---------------- evidence
     with_tx = [c for c in good if any(r[0] == 354 for r in c["reps"])]
-    chk.cov["evaluations"] = len(rcases) + 2 * len(pargs) + len(msgs) + len(good) + len(dots)
-    chk.cov["traces_validated_against_impl"] = len(good) + len(dots)
+    chk.cov["evaluations"] = len(rcases) + 2 * len(pargs) + len(msgs) + len(good) + len(dots) + len(refs)
+    chk.cov["traces_validated_against_impl"] = len(good) + len(dots) + len(refs)
     chk.cov["distinct_nontrivial"] = len(set(c["input"] for c in with_tx)) + len(set(s for (b, t, r, mx, s) in rcases if t and b))
     chk.cov["rule"] = ("session: distinct client byte streams (seeded; LHLO/MAIL/RCPT/DATA variants in case and spacing, ESMTP parameters, RSET, repeated MAIL, "
                        "0..max+2 recipients, bodies from a menu of well-formed / From-less / header-less / unparsable messages with lines of dots, LMTP commands, "
@@ -794,6 +900,11 @@ def run(chk):
     chk.cov["dot_probe_sessions"] = {"total": len(dots), "recipients_observed": sum(len(c["observe"]) for c in dots),
                                      "violations": stats.get("dot_probe_violations", 0),
                                      "judged_by": "stream_ok (one reply per recipient, body not dispatched) and delivered_ok (stored size and text = submitted body)"}
+    chk.cov["refusal_probe_sessions"] = {"total": len(refs), "violations": stats.get("refusal_probe_violations", 0),
+                                         "kinds": sorted(set(c["info"]["kind"] for c in refs)),
+                                         "verbs": "each of QUIT RSET DATA MAIL-FROM: RCPT-TO: LHLO NOOP in upper and lower case as the first line of a header-less message and inside a colon-less header line; random kinds/verbs on top",
+                                         "shape": "refused message with 1..max recipients, then NOOP, a second complete transaction, NOOP, QUIT",
+                                         "judged_by": "stream_ok and delivered_ok (second message stored for its recipients, nothing stored for the refused one)"}
     chk.cov["parse_cases"] = len(pargs)
     chk.cov["verdict_cases"] = len(msgs)
     for c in with_tx[:3]:
